@@ -351,6 +351,16 @@ structure PsmAux where
   lnLongestY : Float
   lnPeptideLen : Float
 
+/-- the number of bins of the mass-error KDE in `score_psms`, from the precursor tolerance (`kind 0` = ppm,
+    otherwise dalton): `bin_size = (hi - lo).max(100.0)` for ppm, `(hi - lo).max(1000.0)` for dalton (f32),
+    `bins = bin_size.ceil().abs() as usize` -/
+def massModelBins (kind : Nat) (lo hi : Float32) : Nat :=
+  let w := hi - lo
+  let floor : Float32 := if kind == 0 then 100.0 else 1000.0
+  -- `f32::max` ignores a NaN operand
+  let m := if w.isNaN then floor else if w < floor then floor else w
+  m.ceil.abs.toUInt64.toNat
+
 /-- `f64::clamp` (a NaN stays NaN) -/
 def clampF (x lo hi : Float) : Float := if x < lo then lo else if x > hi then hi else x
 
